@@ -120,11 +120,20 @@ def gen_basic(rng, op, malformed=False):
         n, k, m = rng.randint(1, 3), rng.randint(1, 3), rng.randint(1, 3)
         a = bcast_operand(rng, (n, m))
         if malformed: a = (n + 1, m + 2)
+        elif rng.chance(.3):
+            # broadcasting the other way round: the PRODUCT has extent 1 along a matrix axis and the summand is larger there
+            # (a + b @ c broadcasts both operands; whatever the forward accepts the backward has to differentiate)
+            if rng.chance(.5): a = (rng.randint(2, 3), m); n = 1
+            else: a = (n, rng.randint(2, 3)); m = 1
+            if rng.chance(.3): a = (2,) + a
         return [L(a), L((n, k)), L((k, m))], []
     if op == 'pow':
         e = rng.pick([2, 3, -1, 0.5, 1.5, -2, 1, 2.5, 4, 0, 0, -0.0, 1 / 3, 2 / 3, 0.1, -0.5, 1 / 3])      # exponent 0: the constant 1 with gradient 0 (on non-zero operands); fractions on either-sign data give nan
         s = rshape(rng)
-        return [L(s, 'pos' if e == 0 or ((e != int(e) or e < 0) and rng.chance(.6)) else 'any')], [fbits(float(e))]
+        lf = L(s, 'pos' if e == 0 or ((e != int(e) or e < 0) and rng.chance(.6)) else 'any')
+        if e >= 1 and lf[1] and rng.chance(.5):        # an exact zero in the base (a squared ReLU output, v - v.max()): the derivative n * 0 ** (n - 1) is finite there
+            lf[1][rng.randrange(len(lf[1]))] = rng.pick([0.0, 0.0, -0.0])
+        return [lf], [fbits(float(e))]
     if op == 'rpow':
         return [L(rshape(rng))], [fbits(rng.pick([2.0, 0.5, 3.0, 2.718281828459045, 1.5]))]
     if op in ('neg', 'clone', 'exp'):
